@@ -19,3 +19,4 @@ open PubModel.C12
 #print axioms gen_dir_ignore_exact
 #print axioms gen_exclusions_as_read
 #print axioms gen_recursive_select_test
+#print axioms gen_targets_resolved_with_makePath
